@@ -12,6 +12,10 @@ CHECKS = {
     text='Theorems in Coq for ALL setting identifiers and ALL values >= 0: the function translated from settings._validate_setting on this run accepts exactly the RFC 7540 6.5.2 / RFC 8441 ranges and rejects everything else with the mandated code; the INITIAL_WINDOW_SIZE delta arithmetic (guard_increment_window) is exact and overflows to FLOW_CONTROL_ERROR. The translated kernels are re-proved equal to the hand model on every run (GenEq), and the connection-level reactions (receive_data / update_settings / initial values / IWS delta) are compared with the model on a boundary-dense grid.',
     design='7.C12', technique='Coq proof (lia) over AST-translated kernel + differential correspondence on boundary grid'),
 }
+CHECKS['C05'] = dict(
+    level='proof',
+    text='Theorems in Coq over ALL histories (any length, any interleaving) of the four operations hyper-h2 applies to a WindowManager (DATA received, bytes acknowledged, manual increment, local INITIAL_WINDOW_SIZE change), for all maxima: emitted increments never exceed bytes acknowledged and never lift the window above its maximum; no stall and the 2^31-1 ceiling are proved for the histories outside two refuted patterns (known findings F-C05-1, F-C05-2, each with a vm_compute witness replayed on the real code). The model is proved equal (GenEq) to the functions AST-translated from windows.py / stream.py on every run, and random + boundary histories are compared step by step with the real objects.',
+    design='7.C05', technique='Coq invariant proofs by induction over operation histories of AST-translated kernels + differential correspondence')
 NA_REASON = {}
 def main():
     checks = []
